@@ -968,6 +968,7 @@ PROPS["C13"] = {
         {"pC": 0.15, "pX": 0.1, "maxdepth": 2, "reads": 0.3, "declare": 0.2, "full_layout": False},
         {"pC": 0.1, "maxdepth": 3, "reads": 0.2, "echo": 1.0},
         {"pC": 0.1, "maxdepth": 2, "reads": 0.2, "n_bidir": 1, "out_twin": 0.8, "full_layout": True},
+        {"pC": 0.1, "maxdepth": 2, "reads": 0.0, "pZX": 0.5, "full_layout": True, "n_bidir": 1},
     ]), ["err", "drop", "add", "dup", "swap", "subst", "widen"], 0.8, cont=0.4),
     "tags": ("NEW", "CALL", "ROW", "ITEM", "END"),
     "nontrivial": lambda c, t: any(x == "ITEM" for x, _ in t) or any(x == "NEW" and r.startswith("err") for x, r in t),
@@ -1192,7 +1193,7 @@ def breaking_edits(rng, src):
             out.append((join(body[:i] + [" ".join(first[:-1])] + body[i + 1:]), "row with one entry too few"))
         out.append((join(body[:i] + [body[i].split("#")[0] + " 9223372036854775808"[0:0]] + ["let big = 9223372036854775808;"] + body[i + 1:]), "literal that does not fit in 64 bits"))
         # literals that do not fit, in every radix and every position a number can appear in
-        big_lits = ["0b1" + "0" * rng.choice([63, 64, 65, 70, 127, 128]), "0b" + "1" * rng.choice([64, 65, 66, 100]),
+        big_lits = ["9223372036854775808", "9223372036854775809", "9223372036854775810", "0b1" + "0" * rng.choice([63, 64, 65, 70, 127, 128]), "0b" + "1" * rng.choice([64, 65, 66, 100]),
                     "0x8" + "0" * 15, "0x1" + "0" * rng.choice([16, 17, 31, 32]), "0xFFFFFFFFFFFFFFFF", "0" + "1" + "0" * 21, "01777777777777777777777",
                     "9223372036854775808", "18446744073709551616", "1" + "0" * 40]
         lit = rng.choice(big_lits)
@@ -1221,6 +1222,13 @@ def breaking_edits(rng, src):
     out.append((src.rstrip("\r\n") + "\nloop(dd,1)\ndeclare WW = 1;\nend loop\ndeclare WW = 2;\n", "duplicated declare name (first one inside a loop)"))
     out.append((src.rstrip("\r\n") + "\nloop(dd,1)\ndeclare WW = 1;\nend loop\nloop(ee,1)\ndeclare WW = 2;\nend loop\n", "duplicated declare name (sibling loops)"))
     out.append((src.rstrip("\r\n") + "\nloop(dd,1)\nloop(ee,1)\ndeclare WW = 1;\nend loop\ndeclare WW = 2;\nend loop\n", "duplicated declare name (inner loop, then enclosing loop)"))
+    out.append((src.rstrip("\r\n") + "\nlet ar = %s;\n" % rng.choice(["ite(1,2)", "ite(1,2,3,4)", "ite()", "random()", "random(1,2)", "signExt(1)", "signExt(1,2,3)", "ite(1,2,)"]), "wrong number of arguments"))
+    out.append((src.rstrip("\r\n") + "\ndeclare UU = 1;\nlet UU = 2;\ndeclare UU = 3;\n", "duplicated declare name (a let of the same name in between)"))
+    hdr_n = ncols_of(lines[hdr_i])
+    bad_body = rng.choice([" ".join(["1"] * (hdr_n + 1)), "let q = (1;", "let q = nosuch(1);", "let q = 18446744073709551616;", "bits(65,1)", "let q = 1", "declare DD = 1;\ndeclare DD = 2;"])
+    out.append((src.rstrip("\r\n") + "\nloop(zz,%s)\n%s\nend loop\n" % (rng.choice(["0", "0x0", "00", "0b0"]), bad_body), "malformed statement inside the body of a loop with bound 0"))
+    out.append((src.rstrip("\r\n") + "\n" + " ".join(["1"] * hdr_n) + "\r" + " ".join(["1"] * hdr_n) + "\n", "two rows separated by a lone CR (a CR is a blank, not a line break)"))
+    out.append((src.rstrip("\r\n") + "\nloop(zz,1)\r" + " ".join(["1"] * hdr_n) + "\nend loop\n", "loop header followed by a lone CR instead of a line break"))
     # a header of 65-80 columns does not make bits(65..) legal: a value has 64 bits
     ncw = rng.choice([65, 66, 70, 80])
     kw = rng.randrange(65, ncw + 1)
@@ -1353,6 +1361,10 @@ def long_text_cases(prefix, seed, tier):
     rng = random.Random(seed ^ 0x10C6)
     sigs = [{"name": "A", "typ": "I", "bits": 4, "default": "0"}, {"name": "Q", "typ": "O", "bits": 4, "default": "-"}]
     cases = []
+    for i, n in enumerate([900, 2500] + ([20000] if tier != "quick" else [])):
+        lines = ([""] * n) + ["A Q", "1 X", "", "2 X"]
+        cases.append({"id": "%s-lead-%d" % (prefix, i), "kind": "run", "src": "\n".join(lines) + "\n", "sigs": sigs, "layout": [1], "table": [["1"]],
+                      "echo": 0, "wdefault": 0, "faults": [], "max": 50, "seed": 1, "gen": {"row_lines": [n + 2, n + 4]}})
     for i, n in enumerate([250, 253, 254, 65530, 65533, 65534, 65600 + rng.randrange(0, 5000)] + ([131070, 200000] if tier != "quick" else [])):
         filler = []
         for k in range(n):
@@ -1394,6 +1406,15 @@ def radix_cases(seed, tier):
         for j, sp in enumerate(spell):
             cases.append({"id": "radix-%d-%d" % (i, j), "kind": "run", "src": "A Q\n%s (%s)\n" % (sp, sp), "sigs": sigs, "layout": [1], "table": [["0"]],
                           "echo": 0, "wdefault": 0, "faults": [], "max": 10, "seed": 1, "radix_group": i, "radix_value": v})
+    # the same digit string in several radixes within ONE program (each literal keeps the value of its own radix), with
+    # leading zeros, compared with the model
+    for i, digits in enumerate(["10", "11", "100", "101", "7", "17", "0", "1", "0010", "777"]):
+        forms = [digits.lstrip("0") or "0", "0x" + digits, "0X00" + digits, "0" + digits if all(ch in "01234567" for ch in digits) else "0x" + digits,
+                 "0b" + digits if all(ch in "01" for ch in digits) else "0x" + digits, "00" + digits if all(ch in "01234567" for ch in digits) else digits.lstrip("0") or "0"]
+        rows = ["%s (%s)" % (f, g) for f in forms for g in forms[:3]]
+        rng.shuffle(rows)
+        cases.append({"id": "radix-mix-%d" % i, "kind": "run", "src": "A Q\n" + "\n".join(rows) + "\nlet a = %s + %s;\nlet b = %s - %s;\n(a) (b)\n" % (forms[0], forms[1], forms[1], forms[0]),
+                      "sigs": sigs, "layout": [1], "table": [["0"]], "echo": 0, "wdefault": 0, "faults": [], "max": 100, "seed": 1})
     return cases
 
 
@@ -2018,7 +2039,7 @@ def evalerr_cases(prefix, seed, tier):
     for i in range(n):
         b = rng.choice(bad)
         big = rng.choice([1000003, 2 ** 40, 2 ** 62])
-        shape = rng.randrange(0, 8)
+        shape = rng.randrange(0, 11)
         if shape == 0:
             body = ["let z = 3;", "let z = %s;" % b, "(z) X", "(random(%d)) X" % big]
         elif shape == 1:
@@ -2033,8 +2054,18 @@ def evalerr_cases(prefix, seed, tier):
             body = ["let z = 0;", "while(z < 3)", "let z = z + 1;", "(7/(z-2)) X", "(z) X", "end while", "(z) X"]
         elif shape == 6:
             body = ["let z = 2;", "loop(i,2)", "loop(j,2)", "bits(2,%s) " % b, "(i+j) X", "end loop", "end loop", "repeat(2) (n/(z-2)) X", "(z) X"]
-        else:
+        elif shape == 7:
             body = ["let z = 1;", "(random(%d)) X" % big, "let z = random(%d) + (%s);" % (big, b), "(random(%d)) X" % big, "(z) X"]
+        elif shape == 8:
+            # the LEFT operand fails: the right one (a draw) is not evaluated
+            body = ["let z = 1;", "((%s) + random(%d)) X" % (b, big), "(random(%d)) X" % big, "resetRandom;", "(random(%d)) X" % big]
+        elif shape == 9:
+            # a loop whose bound fails, nested in another loop: no frame may be left behind
+            body = ["let k = 7;", "loop(i,2)", "loop(j,%s)" % b, "(j) X", "end loop", "(i) X", "end loop", "(k) X", "(k+1) X"]
+        else:
+            # a name the parser knows (bound in a while body that never runs) but that has no value: an error item each time it is read,
+            # never a phantom variable
+            body = ["let k = 2;", "while(0)", "let t = 1;", "end while", "(t) X", "(k) X", "(t) X", "(k) X"]
         cases.append({"id": "%s-ee-%d-%d" % (prefix, seed & 0xFFFF, i), "kind": "run" if i % 3 else "static", "src": "A Q\n" + "\n".join(body) + "\n",
                       "sigs": [dict(s_) for s_ in sigs], "layout": [1], "table": [["3"], ["4"]], "echo": 0, "wdefault": 0, "faults": [], "cont": 1,
                       "max": 30, "seed": rng.randrange(1, 1 << 31)})
@@ -2194,3 +2225,137 @@ _c04b = PROPS["C04"]["cases"]
 PROPS["C04"]["cases"] = lambda seed, tier: _c04b(seed, tier) + add_faults(run_family("c04f", 150 if tier == "quick" else 6000, 0, [
     {"reads": 0.95, "echo": 1.0, "maxdepth": 2, "wrow": 0.5, "wlet": 0.3, "full_layout": True, "pZXread": 0.0}]), ["drop", "add", "dup", "swap", "err"], 1.0, cont=1.0)(seed, "quick")
 PROPS["C04"]["rule"] += "; plus a family of output-reading programs whose driver deviates (wrong length / order / error) in the middle, with a caller that goes on"
+
+
+# ------------------------------------------------------------------ round-5 blind spots: boundaries at 64 columns, degenerate signal lists, many calls
+
+def wide_boundary_cases(prefix):
+    """headers of 64-70 columns: C / X in columns 62..66 (u64 bit sets wrap at 64), two C columns 64 apart, a C in a
+    non-input column beyond 64, bits(63/64, v) groups with values that are not 0 / -1 / 2^m-1"""
+    cases = []
+    for ncol in (64, 65, 66, 70):
+        names = ["c%d" % k for k in range(ncol)]
+        for out_from in (ncol, ncol - 3, 60):
+            sigs = [_sig(nm_, "I" if k < out_from else "O", 1) for k, nm_ in enumerate(names)]
+            outs = [k for k in range(ncol) if k >= out_from]
+            rows = []
+            for spot in (0, 1, 62, 63, 64, 65, ncol - 1):
+                if spot >= ncol:
+                    continue
+                for mark in ("X", "C"):
+                    row = ["0"] * ncol
+                    row[spot] = mark
+                    if mark == "C" and spot + 64 < ncol:
+                        row[spot + 64] = "C"
+                    rows.append(" ".join(row))
+            rows.append(" ".join(["1"] * ncol))
+            for j, chunk in enumerate([rows[i:i + 4] for i in range(0, len(rows), 4)]):
+                cases.append({"id": "%s-w64-%d-%d-%d" % (prefix, ncol, out_from, j), "kind": "run", "src": " ".join(names) + "\n" + "\n".join(chunk) + "\n",
+                              "sigs": [dict(s_) for s_ in sigs], "layout": outs, "table": [["1"] * len(outs), ["0"] * len(outs)], "echo": 0, "wdefault": j % 2,
+                              "faults": [], "max": 400, "seed": 1})
+        # bits groups of 63 / 64 columns
+        sigs = [_sig(nm_, "I", 1) for nm_ in names]
+        vals = ["5", "(-2)", "0x5555555555555555", "(1<<62)", "(1<<63)", "0x7FFFFFFFFFFFFFFE", "(-(1<<62))", "6148914691236517205", "(~5)"]
+        for width in (63, 64):
+            if width > ncol:
+                continue
+            rows = [" ".join(["bits(%d,%s)" % (width, v)] + ["0"] * (ncol - width)) for v in vals]
+            cases.append({"id": "%s-w64-bits-%d-%d" % (prefix, ncol, width), "kind": "run", "src": " ".join(names) + "\n" + "\n".join(rows) + "\n",
+                          "sigs": [dict(s_) for s_ in sigs], "layout": [], "table": [[]], "echo": 0, "wdefault": 0, "faults": [], "max": 400, "seed": 1})
+            cases.append({"id": "%s-w64-bits-%d-%d-s" % (prefix, ncol, width), "kind": "static", "src": " ".join(names) + "\n" + "\n".join(rows) + "\n",
+                          "sigs": [dict(s_) for s_ in sigs], "layout": [], "table": [[]], "echo": 0, "wdefault": 0, "faults": [], "max": 400, "seed": 1})
+    return cases
+
+
+def degenerate_list_cases(prefix):
+    """signal lists with only inputs / only outputs / one signal, programs with loops and variables, drivers that report
+    nothing, or that report pins the test does not know (and then deviate), declared signals that read no output
+    (constant, failing, drawing) with a driver that answers with an empty list"""
+    cases = []
+    progs = [
+        ["let v = 3;", "loop(i,3)", "(i+v) 1", "end loop", "(v) 0", "repeat(2) (n) 1"],
+        ["let w = 0;", "while(w < 3)", "(w) C", "let w = w + 1;", "end while", "X 1"],
+    ]
+    for pi, body in enumerate(progs):
+        sigs = [_sig("A", "I", 8), _sig("B", "I", 1)]
+        for k, (lay, faults) in enumerate([([], []), ([], [(2, "add 0")]), ([], [(3, "add 1"), (5, "err 4")])]):
+            for kind in ("run", "static"):
+                if kind == "static" and faults:
+                    continue
+                cases.append({"id": "%s-ino-%d-%d-%s" % (prefix, pi, k, kind), "kind": kind, "src": "A B\n" + "\n".join(body) + "\n", "sigs": [dict(s_) for s_ in sigs],
+                              "layout": lay, "table": [[]], "echo": 0, "wdefault": k % 2, "faults": faults, "cont": 1, "max": 60, "seed": 1})
+    # only outputs
+    sigs = [_sig("Q", "O", 4), _sig("R", "O", 4)]
+    for k, lay in enumerate([[0, 1], [1], []]):
+        cases.append({"id": "%s-outo-%d" % (prefix, k), "kind": "run", "src": "Q R\n1 2\nlet x = 4;\nloop(i,2)\n(i) (x)\nend loop\nX X\n", "sigs": [dict(s_) for s_ in sigs],
+                      "layout": lay, "table": [["1"] * len(lay), ["2"] * len(lay)], "echo": 0, "wdefault": 0, "faults": [], "max": 60, "seed": 1})
+    # declared signals that read no output, driver answers with an empty list (and static runs)
+    decls = ["7", "3 + 4 * 2", "8 / (2 - 2)", "random(1000003)", "1 + random(1099511627776)", "ite(1, 5, 1/0)", "signExt(1,2)"]
+    for di, d in enumerate(decls):
+        for hdr, row in (("A V", "1 X"), ("A V", "1 7"), ("A", "1")):
+            sigs = [_sig("A", "I", 4), _sig("Q", "O", 4)]
+            for lay in ([], [1]):
+                for kind in ("run", "static"):
+                    cases.append({"id": "%s-cdecl-%d-%s-%d-%s" % (prefix, di, len(hdr), len(lay), kind), "kind": kind,
+                                  "src": hdr + "\ndeclare V = " + d + ";\n" + row + "\n" + row + "\n" + row.replace("1", "2", 1) + "\n", "sigs": [dict(s_) for s_ in sigs],
+                                  "layout": lay, "table": [["1"] * len(lay)], "echo": 0, "wdefault": 0, "faults": [], "cont": 1, "max": 30, "seed": 5 + di})
+    return cases
+
+
+def many_calls_cases(prefix):
+    """more than 64 function calls in one test, parentheses / unary operators / ite nested 70 deep, 100 rows"""
+    sigs = [_sig("A", "I", 64), _sig("Q", "O", 4)]
+    mk = lambda i, body: {"id": "%s-many-%d" % (prefix, i), "kind": "run", "src": "A Q\n" + body + "\n", "sigs": [dict(s_) for s_ in sigs], "layout": [1],
+                          "table": [["1"]], "echo": 0, "wdefault": 0, "faults": [], "max": 300, "seed": 1}
+    cases = [mk(0, "\n".join("(ite(%d,%d,%d)) X" % (k % 2, k, k + 1) for k in range(100))),
+             mk(1, "(" + "(" * 70 + "5" + ")" * 70 + ") X"),
+             mk(2, "(" + "-~!" * 24 + "5) X"),
+             mk(3, "(" + "ite(1," * 70 + "7" + ",0)" * 70 + ") X"),
+             mk(4, "\n".join("let v%d = ite(1,%d,2) + ite(0,1,%d);" % (k, k, k) for k in range(40)) + "\n(v39) X"),
+             mk(5, "(" + " + ".join("ite(%d,1,2)" % (k % 2) for k in range(80)) + ") X")]
+    return cases
+
+
+for _p in ("C05", "C10", "C11", "C02", "C01"):
+    _extend(_p, (lambda pref: (lambda seed, tier: wide_boundary_cases(pref)))(_p.lower()),
+            "plus headers of 64-70 columns with C / X around column 64, C columns 64 apart, bits(63/64, v) groups")
+for _p in ("C10", "C13", "C14", "C15", "C02", "C18", "C17"):
+    _extend(_p, (lambda pref: (lambda seed, tier: degenerate_list_cases(pref)))(_p.lower()),
+            "plus degenerate signal lists (only inputs / only outputs), drivers that report nothing or unknown pins, declared signals that read no output")
+for _p in ("C08", "C09", "C10", "C12"):
+    _extend(_p, (lambda pref: (lambda seed, tier: [dict(c, kind=("parse" if pref in ("c09", "c12") else c["kind"])) for c in many_calls_cases(pref)]))(_p.lower()),
+            "plus tests with 100 function calls, nesting 70 deep")
+for _p in ("C13", "C14", "C15", "C18"):
+    if "STATIC" not in PROPS[_p]["tags"]:
+        PROPS[_p]["tags"] = tuple(PROPS[_p]["tags"]) + ("STATIC", "SROW")
+
+
+def c17_many_draws(seed, tier):
+    sigs = [_sig("A", "I", 64), _sig("Q", "O", 4)]
+    cases = []
+    for i, (a, b) in enumerate([(15, 17), (16, 16), (257, 1), (32, 16), (255, 1), (16, 17)] + ([(256, 256), (255, 257)] if tier != "quick" else [])):
+        body = ["loop(i,%d)" % a, "loop(j,%d)" % b, "let t = random(1099511627776);", "end loop", "end loop", "(random(1099511627776)) X", "resetRandom;",
+                "(random(1099511627776)) X", "(random(1099511627776)) X", "loop(i,%d)" % (a * b - 2), "let t = random(1099511627776);", "end loop",
+                "(random(1099511627776)) X", "resetRandom;", "(random(1099511627776)) X"]
+        cases.append({"id": "c17-draws-%d" % i, "kind": "run" if i % 2 else "static", "src": "A Q\n" + "\n".join(body) + "\n", "sigs": [dict(s_) for s_ in sigs], "layout": [1],
+                      "table": [["1"]], "echo": 0, "wdefault": 0, "faults": [], "max": 50, "seed": 77 + i, "fuel": 400000})
+    return cases
+
+
+_extend("C17", c17_many_draws, "plus resets after exactly 255 / 256 / 257 / 512 draws")
+
+
+# every comparison that looks at END also looks at what two more next() calls after None give (AFTER none none calls=0)
+for _p in PROPS:
+    if "END" in PROPS[_p].get("tags", ()) and "AFTER" not in PROPS[_p]["tags"]:
+        PROPS[_p]["tags"] = tuple(PROPS[_p]["tags"]) + ("AFTER",)
+
+
+def after_none_oracle(case, trace):
+    for t, r in trace:
+        if t == "AFTER" and r.strip() != "none none calls=0":
+            yield "next() after None did not stay None without driver calls: %s" % r.strip()
+
+
+for _p in ("C02", "C10", "C01"):
+    PROPS[_p]["oracles"] = list(PROPS[_p]["oracles"]) + [after_none_oracle]
